@@ -253,6 +253,35 @@ CORPUS_DEC = [
 ]
 
 
+# witnesses of the known-finding classes and the literal vectors of the unit tests in /repo; always run first
+_MM = (7799, b'127.0.0.1:6000', b'127.0.0.1:7000', b'127.0.0.1:6001', b'127.0.0.1:7001')
+CORPUS_TASK = (b'mycluster', ('M', [(233, 666)], _MM))                      # coordinator/migration.rs test descriptor
+CORPUS_PCM = [
+    # common/proto.rs test_parse_proxy_cluster_meta: deleting PEER (token 10) turns both peers into local nodes; truncation after
+    # token 7 / 10 / 11 / 14 is a group boundary; cutting between a config key and its value is tolerated (ext=0)
+    {'epoch': 233, 'flags': 1, 'name': b'cluster_name',
+     'local': [(b'127.0.0.1:7000', [('N', [(0, 1000)], None)]), (b'127.0.0.1:7010', [('N', [(1001, 2000)], None)])],
+     'peer': [(b'127.0.0.2:7020', [('N', [(2001, 3000)], None)]), (b'127.0.0.2:7030', [('N', [(3001, 4000)], None)])],
+     'cfg': (1, 10800, 10000, 500, 16)},
+    # a migrating node with two slot ranges (the shape the broker produces mid-migration) and an importing peer
+    {'epoch': 7800, 'flags': 0, 'name': b'mycluster',
+     'local': [(b'127.0.0.1:7000', [('N', [(0, 232), (667, 8191)], None), ('M', [(233, 666)], _MM)])],
+     'peer': [(b'127.0.0.1:6010', [('N', [(8192, 16383)], None), ('I', [(233, 666)], _MM)])],
+     'cfg': (0, 10800, 10000, 500, 16)},
+    # no local node, cluster named like a keyword: deleting the flags token makes `PEER` the cluster name (unvalidated flags token)
+    {'epoch': 5, 'flags': 1, 'name': b'FORCE', 'local': [], 'peer': [(b'10.0.0.9:7000', [('N', [(0, 16383)], None)])], 'cfg': (2, 1, 2, 3, 4)},
+    # a freshly added chunk: nodes without slots (dropped by the plain encoding, kept by the compressed one)
+    {'epoch': 9, 'flags': 0, 'name': b'c1', 'local': [(b'10.0.0.1:7000', []), (b'10.0.0.1:7010', [])],
+     'peer': [(b'10.0.0.2:6000', [('N', [(0, 16383)], None)])], 'cfg': (0, 10800, 10000, 500, 16)},
+]
+CORPUS_REPL = [
+    # replication/replicator.rs test_parse_and_encode_multi_replicators
+    {'epoch': 233, 'flags': 0, 'masters': [(b'testcluster', b'localhost:6000', [(b'localhost:6001', b'localhost:5299')])],
+     'replicas': [(b'testcluster', b'localhost:6001', [(b'localhost:6000', b'localhost:5299')])]},
+    {'epoch': 1, 'flags': 1, 'masters': [(b'', b'10.0.0.1:7000', []), (b'c', b'10.0.0.1:7010', [(b'a', b'b'), (b'c', b'd')])], 'replicas': []},
+]
+
+
 class Runner:
     """Runs cases through both sides, compares line by line, keeps the disagreement list."""
     def __init__(self, chk):
@@ -346,6 +375,7 @@ def run(chk):
         c = g.r.random() < 0.8
         leaf.append(('sr', g.sr(c))); leaf.append(('task', g.task(c))); leaf.append(('sw', (g.free(), g.task(c)))); leaf.append(('mm', g.mm()))
         leaf.append(('rl', g.rl(c)))
+    leaf = [('task', CORPUS_TASK), ('sw', (b'v2', CORPUS_TASK)), ('sr', CORPUS_TASK[1])] + leaf
     leaf += [('task', g.task(True, spaces=True)) for _ in range(5)]
     enc_cases = []
     for k, v in leaf:
@@ -444,7 +474,7 @@ def run(chk):
 
     # ---------- 2. cluster metadata, plain form ----------
     n_pcm = 40 if quick else 1200
-    vals = []
+    vals = list(CORPUS_PCM)          # hand-written witnesses first (their mutation sweeps run first)
     for i in range(n_pcm):
         k = g.r.random()
         vals.append(g.pcm(compact=(k < 0.9), allow_empty=(0.7 < k), maxnodes=3 if quick else g.r.choice([3, 3, 5])))
@@ -521,7 +551,7 @@ def run(chk):
 
     # ---------- 3. compressed form: section hypothesis against the real libraries + base64 mutation sweep ----------
     n_z = 40 if quick else 800
-    zvals = [g.pcm(compact=(g.r.random() < 0.8), compress=True) for _ in range(n_z)]
+    zvals = [dict(m, flags=m['flags'] | 2) for m in CORPUS_PCM] + [g.pcm(compact=(g.r.random() < 0.8), compress=True) for _ in range(n_z)]
     zc = ['pcm_zrt ' + f_pcm(m) for m in zvals]
     impl, _ = R.both(zc)
     for m, c, o in zip(zvals, zc, impl):
@@ -557,7 +587,7 @@ def run(chk):
 
     # ---------- 4. replication metadata ----------
     n_r = 40 if quick else 1000
-    rvals = [g.repl() for _ in range(n_r)] + [{'epoch': 0, 'flags': 0, 'masters': [], 'replicas': []}]
+    rvals = list(CORPUS_REPL) + [g.repl() for _ in range(n_r)] + [{'epoch': 0, 'flags': 0, 'masters': [], 'replicas': []}]
     rc = ['repl_enc ' + f_repl(m) for m in rvals]
     impl, _ = R.both(rc)
     rmsgs = []
